@@ -43,6 +43,11 @@ CLAIMED = {
    note="trusted: Eigen for inversion of the extracted matrices (n<=40, diagonally dominant families keep them well conditioned); tolerances 1e-9..1e-12 relative",
    technique="deterministic simulation: seeded schedules over the level-scheduled parallel sweeps vs the serial sweep, plus definitional invariants from dense reference models",
    replay="./build/plain/c06 --replay {path}"),
+ "C02": dict(cat="exploration", ref="4 (C02)",
+   text="Decides 'one fixed linear operator, independent of earlier applications' by history exploration: the operator is extracted column by column in a seeded shuffled order, interleaved with injected foreign applications (random, 1e200, zero, NaN- and Inf-containing right-hand sides) and extracted again; both extractions must agree bit for bit, in a simulated OpenMP world (nt up to 17, seeded schedule). The extracted matrix then gives, by one Eigen call each: linearity, symmetry, positive definiteness and rho(I-BA)<1 for the symmetric smoothers on SPD M-matrices, and exact power-of-two scaling. Sampling of inputs, configurations and histories.",
+   note="trusted: Eigen symmetric eigen-solvers / Cholesky (n<=300); strict inequalities decided with a 1e-10 margin; plain aggregation with the default over-interpolation is a recorded finding for the contraction and positivity clauses",
+   technique="deterministic simulation: application histories with injected non-finite/huge inputs against the twice-extracted operator; spectral invariants on the extracted model",
+   replay="./build/plain/c02 --replay {path}"),
 }
 NA_PURE = {
  "C04": "pure function of (matrix, parameters): aggregation is a serial greedy loop, its parallel loops are statically partitioned without reductions; no schedule, fault or history can change the result (thread-count independence of the operators is exercised under C09)",
